@@ -506,6 +506,17 @@ pub fn register_host(ctx: &mut Context, name: &str, sig: &[&str], body: &Body, l
         ["expr", "expr"] => host!(ctx, name, log, body; a: Expression, b: Expression),
         ["ident", "args"] => host!(ctx, name, log, body; a: Identifier, b: Arguments),
         ["args", "args"] => host!(ctx, name, log, body; a: Arguments, b: Arguments),
+        // a host function that reads the variable `x` from the scope it is called in
+        ["ftx", "readvar"] | ["readvar"] => {
+            let log = log.clone();
+            let name_s = name.to_string();
+            ctx.add_function(name, move |ftx: &FunctionContext| -> Result<Value, ExecutionError> {
+                let v = ftx.ptx.get_variable("x".to_string())?;
+                log.lock().unwrap().push((name_s.clone(), vec![v.clone()]));
+                Ok(v)
+            });
+            true
+        }
         ["ftx"] => host_ftx!(ctx, name, log, body;),
         ["ftx", "pos-value"] => host_ftx!(ctx, name, log, body; a: V),
         ["ftx", "this-value"] => host_ftx!(ctx, name, log, body; a: This<V>),
